@@ -3,11 +3,11 @@ VIEW GView
 CONSTANTS
   Names = {"a", "b"}
   IntVals <- IV_small
-  Specials = {"floatint", "floatfrac", "bool", "list", "none"}
+  Specials = {"none", "ref", "numstr", "mem"}
   DispNames = {"", "x"}
   MaxPieces = 2
   MaxExt = 1
-  MaxDepth = 2
+  MaxDepth = 3
   AsImpl = {}
   Families = {"build"}
 CHECK_DEADLOCK FALSE
